@@ -133,10 +133,17 @@ def k_direct(run, case):
     ref = gen.traj_arrays(rng, n, pos_cls=["walk", "utm", "stationary_mix", "grid", "circle", "tiny"][rng.integers(6)],
                           rot_cls=["smooth", "uniform"][rng.integers(2)] if case.get("big") else None)
     est = gen.perturbed_estimate(rng, ref, hostile=True)
-    if rng.random() < .5:
+    if rng.random() < .5 and not case.get("quarter"):
         A = gen.rand_se3(rng, tscale=float(np.std(ref["p"])) + 1)
         est["p"] = (A[:3, :3] @ est["p"].T).T + A[:3, 3]
         est["R"] = np.array([A[:3, :3] @ R for R in est["R"]])
+    quarter = bool(case.get("quarter"))
+    if quarter:
+        # grid-world attitudes: both trajectories turn by exact quarter turns only (matrices of
+        # 0 / +-1), independently of each other - the relative rotation errors are exact elements of
+        # the cube group (0, 90, 120, 180 degrees)
+        ref["R"] = np.array([gen.rot_of_class(rng, "quarter_turns") for _ in range(n)])
+        est = dict(est, R=np.array([gen.rot_of_class(rng, "quarter_turns") for _ in range(n)]))
     sel = ref if from_ref else est
     seg = np.linalg.norm(np.diff(sel["p"], axis=0), axis=1)
     if unit == "frames":
@@ -154,6 +161,8 @@ def k_direct(run, case):
         delta, rel_tol = rng.uniform(0.2, 2.5) * (180 / PI if unit == "degrees" else 1), 0.02
     m1 = "se3" if rng.random() < .5 else "xyzq"
     m2 = "se3" if rng.random() < .5 else "xyzq"
+    if quarter:
+        m1 = m2 = "se3"  # (the exact matrices themselves)
     t_ref = gen.make_evo(ref, m1, False, flavour=gen.rand_flavour(rng))
     t_est = gen.make_evo(est, m2, False, flavour=gen.rand_flavour(rng))
     gen.age(rng, t_ref), gen.age(rng, t_est)
@@ -565,6 +574,9 @@ def main(run):
     for i in run.mine({"quick": 4, "thorough": 32}[run.tier]):
         k_direct(run, run.case("direct", 2 * 10**6 + i, big=True, unit=["degrees", "radians", "meters", "frames"][i % 4],
                                all_pairs=True))
+    for i in run.mine({"quick": 40, "thorough": 800}[run.tier]):
+        k_direct(run, run.case("direct", 3 * 10**6 + i, quarter=True, n=int(6 + i % 20), unit="frames",
+                               relation=["rotation_angle_rad", "rotation_angle_deg", "full_transformation", "rotation_part"][i % 4]))
     for i in run.mine({"quick": 12, "thorough": 200}[run.tier]):
         k_threads(run, run.case("threads", i))
     for i in run.mine({"quick": 120, "thorough": 3000}[run.tier]):
